@@ -114,6 +114,8 @@ pub struct Runner<'a> {
     /// what the caller's output buffer looked like after the last call (C19)
     pub last_outbuf: Vec<u8>,
     kem_seen: usize,
+    /// position (in bytes) of each endpoint's deterministic random source
+    rng_pos: HashMap<String, std::sync::Arc<std::sync::Mutex<u64>>>,
 }
 
 enum CallRes {
@@ -173,6 +175,7 @@ impl<'a> Runner<'a> {
             out: Outcome::default(),
             last_outbuf: vec![],
             kem_seen: 0,
+            rng_pos: HashMap::new(),
         }
     }
 
@@ -581,11 +584,28 @@ impl<'a> Runner<'a> {
                 let payload = self.ev(&args["payload"])?;
                 let buflen = args["buf"].as_u64().ok_or("buf")? as usize;
                 let mut buf = vec![0xA5u8; buflen];
+                // position the random source at the model's draw index for this call
+                let before = match (args["rng"].as_u64(), self.rng_pos.get(&id)) {
+                    (Some(k), Some(c)) => {
+                        *c.lock().unwrap() = 32 * k;
+                        Some(32 * k)
+                    },
+                    _ => None,
+                };
                 let res = match self.eps.get_mut(&id) {
                     Some(Endpoint::Hs(h)) => do_call(|| h.write_message(&payload, &mut buf)),
                     _ => return Err("hs_write on non-handshake endpoint".into()),
                 };
                 self.last_outbuf = buf.clone();
+                // C06: a fresh ephemeral in the message was drawn from the resolver's source during THIS call
+                let fresh_e = matches!(res, CallRes::Ok(_))
+                    && exp["out"].as_array().map(|a| a.iter().any(|f| f[0] == "pub" && f[1][0] == "rand")).unwrap_or(false);
+                if let (true, Some(b), Some(c)) = (fresh_e, before, self.rng_pos.get(&id)) {
+                    if *c.lock().unwrap() == b {
+                        self.viol(i, &op, "ephemeral_not_drawn", "the ephemeral key is drawn during this write".into(),
+                                  "no bytes were taken from the random source".into(), "");
+                    }
+                }
                 self.judge(i, &op, &id, exp, res, &buf, exp.get("out"), true)
             },
             "hs_read" => {
@@ -833,10 +853,13 @@ impl<'a> Runner<'a> {
         let pskloc = args.get("pskloc").and_then(|l| l.as_u64());
         let extra_psk = [0x5au8; 32];
         self.out.calls += 1;
+        let rng_ctr = std::sync::Arc::new(std::sync::Mutex::new(0u64));
+        self.rng_pos.insert(id.to_string(), rng_ctr.clone());
         let eres = exp["res"].as_str().ok_or("exp.res")?;
         let r = catch_unwind(AssertUnwindSafe(|| -> Result<HandshakeState, snow::Error> {
             let params: snow::params::NoiseParams = name.parse()?;
             let mut resolver = RecResolver::new(backend, id, seed, true, log);
+            resolver.rng_ctr = rng_ctr;
             resolver.lack = lack;
             let mut b = Builder::with_resolver(params, Box::new(resolver));
             if let Some(k) = s.as_ref() {
